@@ -9,7 +9,7 @@
    continuous state space -- proved as the density identity for every pair of states and as pi K = pi on every
    finite state space. *)
 From CV Require Import Base.Tac Base.Cmp Base.Ext Model.C02_MH
-  Proofs.C02_MH Proofs.C02_Balance Proofs.C02_Vec Proofs.C02_Real Proofs.C02_Witness.
+  Model.C02_Tune Proofs.C02_MH Proofs.C02_Balance Proofs.C02_Vec Proofs.C02_Real Proofs.C02_Witness Proofs.C02_Tune.
 From Coq Require Import QArith Qreals Reals.
 
 (* ---- the log-domain decision is the MH decision ------------------------------------------------------- *)
@@ -36,6 +36,29 @@ Theorem C02_rw_symmetric : forall (s : Q) (x xi : vec), length x = length xi ->
   veq (mh_prop s (mh_prop s x xi) (vscale (-1) xi)) x.
 Proof. exact mh_prop_reverse. Qed.
 Print Assumptions C02_rw_symmetric.
+
+(* per-component scale (MH given an array scale): same rule *)
+Theorem C02_rw_ratio_vector_scale : forall (logd : vec -> ext) (g : guard) (scales : vec) (st : state) (xi : vec) (l a b : Q),
+  sld st = logd (sx st) -> logd (mh_prop_v scales (sx st) xi) = Fin a -> logd (sx st) = Fin b ->
+  (snd (mh_step_v logd g scales st xi (Fin l)) = true <-> (l <= 0 /\ l <= a - b)%Q) /\
+  (snd (mh_step_v logd g scales st xi (Fin l)) = false -> fst (mh_step_v logd g scales st xi (Fin l)) = st) /\
+  (nonfinite (logd (mh_prop_v scales (sx st) xi)) = true -> mh_step_v logd GNanInf scales st xi (Fin l) = (st, false)).
+Proof.
+  intros logd g scales st xi l a b H1 H2 H3. split; [exact (mhv_decision logd g scales st xi l a b H1 H2 H3)|].
+  split; [exact (mhv_rejected_state logd g scales st xi (Fin l)) | exact (mhv_nonfinite logd scales st xi (Fin l))].
+Qed.
+Print Assumptions C02_rw_ratio_vector_scale.
+
+(* the random-walk move is symmetric exactly when the proposal distribution has mean zero:
+   x' | x ~ N(x + s mu, s^2).  FINDING: both MH interfaces accept any proposal flagged is_symmetric, whatever its mean *)
+Theorem C02_rw_zero_mean_symmetric : forall s x x' : Q, (log_q_rw s 0 x x' == log_q_rw s 0 x' x)%Q.
+Proof. exact rw_zero_mean_symmetric. Qed.
+Print Assumptions C02_rw_zero_mean_symmetric.
+
+Theorem C02_rw_nonzero_mean_refuted :
+  exists s mu x x' : Q, ~ (s == 0)%Q /\ ~ (mu == 0)%Q /\ ~ (log_q_rw s mu x' x - log_q_rw s mu x x' == 0)%Q.
+Proof. exact rw_nonzero_mean_refuted. Qed.
+Print Assumptions C02_rw_nonzero_mean_refuted.
 
 (* ---- component-wise: every coordinate update is such a step against the running point; coordinates already
         visited stay in place; the running cached value is the target's value at the running point ------------ *)
@@ -161,6 +184,37 @@ Theorem C02_composition_invariant : forall (A : Type) (S : list A) (pi : A -> Q)
 Proof. exact compose_invariant. Qed.
 Print Assumptions C02_composition_invariant.
 
+(* a sweep over ANY number of invariant kernels (CWMH in any dimension: one MH kernel per coordinate) is invariant *)
+Theorem C02_sweep_invariant : forall (A : Type) (eqb : A -> A -> bool), (forall x y, eqb x y = true <-> x = y) ->
+  forall (S : list A), NoDup S -> forall (pi : A -> Q) (Ks : list (A -> A -> Q)),
+  Forall (invariant A S pi) Ks -> invariant A S pi (compose_list A eqb S Ks).
+Proof. intros A eqb He S Hn pi Ks. exact (compose_list_invariant A eqb He S Hn pi Ks). Qed.
+Print Assumptions C02_sweep_invariant.
+
+(* ---- warm-up: the adapted scale of MH / CWMH / PCN (experimental tune, legacy sample_adapt) ---------------------
+   scale_temp' = exp(ln scale_temp + (hat_acc - star)/sqrt(k)),  scale = min(scale_temp', 1) *)
+Theorem C02_tune_scale_bounds : forall (lam : R) (k : Z) (h star : R),
+  (0 < tune_temp lam k h star)%R /\ (0 < tune_scale lam k h star <= 1)%R.
+Proof. intros. split; [exact (tune_temp_pos lam k h star) | exact (tune_scale_bounds lam k h star)]. Qed.
+Print Assumptions C02_tune_scale_bounds.
+
+Theorem C02_tune_seq_bounds : forall (windows : list (Z * Z)) (lam : R) (k : Z) (star : R),
+  Forall (fun s => (0 < s <= 1)%R) (tune_seq lam k star windows) /\ length (tune_seq lam k star windows) = length windows.
+Proof. intros. split; [exact (tune_seq_bounds windows lam k star) | exact (tune_seq_length windows lam k star)]. Qed.
+Print Assumptions C02_tune_seq_bounds.
+
+(* vanishing adaptation: the log of the adapted parameter moves by at most 1/sqrt(k) in the k-th tuning step,
+   up when the observed acceptance rate is above the target rate and down when it is below *)
+Theorem C02_tune_vanishing : forall (lam : R) (k : Z) (h star : R),
+  (0 < lam)%R -> (1 <= k)%Z -> (0 <= h <= 1)%R -> (0 <= star <= 1)%R ->
+  (Rabs (ln (tune_temp lam k h star) - ln lam) <= zeta k)%R /\ (0 < zeta k <= 1)%R /\
+  ((star <= h)%R -> (lam <= tune_temp lam k h star)%R) /\ ((h <= star)%R -> (tune_temp lam k h star <= lam)%R).
+Proof.
+  intros lam k h star Hl Hk Hh Hs. split; [exact (tune_log_step lam k h star Hl Hk Hh Hs)|].
+  split; [exact (zeta_pos k Hk) | exact (tune_monotone lam k h star Hl Hk)].
+Qed.
+Print Assumptions C02_tune_vanishing.
+
 (* ---- otherwise the state and its cached density/gradient are unchanged ---------------------------------------- *)
 Theorem C02_reject_unchanged : forall (logd : vec -> ext) (grad : vec -> vec) (k : kernel) (sc : vec) (st : state)
   (xi : vec) (logus : list ext),
@@ -243,3 +297,7 @@ Example C02_example :
   snd (mala_step (t_logd Tq) (t_grad Tq) GNanInf (1 # 4) st0 [1 # 2; - (1 # 4)] (Fin (- (1 # 2)))) = true /\
   snd (cwmh_step (t_logd Tq) GNanInf [1 # 2; 1 # 2] st0 [1 # 2; - (1 # 4)] [Fin (- (1 # 8)); Fin (- (1 # 8))]) = [false; true].
 Proof. exact example_mh. Qed.
+
+Example C02_tune_example :
+  (0 < 1 / 2)%R /\ (1 <= 3)%Z /\ (0 <= hat_acc 1 2 <= 1)%R /\ (0 <= star_mh <= 1)%R /\ (0 <= star_pcn <= 1)%R /\ (0 <= star_cw 2 <= 1)%R.
+Proof. exact tune_example. Qed.
